@@ -79,6 +79,10 @@ type c18Shared struct {
 	// common is a token list with spare capacity that workloads pass prefixes of
 	// to Writer.Annotations
 	common []ion.SymbolToken
+	// scratch: the slices the shared tables were built from; the harness goes on
+	// writing to them (its own writes ordered by scratchMu)
+	scratch   [][]string
+	scratchMu sync.Mutex
 }
 
 var c18Nonce int64
@@ -140,10 +144,22 @@ func c18Setup(nonce int64) *c18Shared {
 
 func c18Build(nonce int64) *c18Shared {
 	s := &c18Shared{dynType: c18DynType(nonce), wrapType: c18WrapType(nonce)}
+	s.scratch = [][]string{
+		{"a", "b", "name", "sym", "abc"},
+		{"x", "y", "a", "n", "list", "inner"},
+		{"m", "t", "any", "k1", "k2", "zz"},
+	}
 	s.ssts = []ion.SharedSymbolTable{
-		ion.NewSharedSymbolTable("t1", 1, []string{"a", "b", "name", "sym", "abc"}),
-		ion.NewSharedSymbolTable("t2", 2, []string{"x", "y", "a", "n", "list", "inner"}),
-		ion.NewSharedSymbolTable("t3", 1, []string{"m", "t", "any", "k1", "k2", "zz"}),
+		ion.NewSharedSymbolTable("t1", 1, s.scratch[0]),
+		ion.NewSharedSymbolTable("t2", 2, s.scratch[1]),
+		ion.NewSharedSymbolTable("t3", 1, s.scratch[2]),
+	}
+	// the caller goes on using the slices it built the tables from (and keeps
+	// doing so during the run, operation 8): a table that kept them would now
+	// answer with texts that differ from one set of shared objects to the next
+	for i := range s.scratch {
+		s.scratch[i][0] = fmt.Sprintf("reused-%d-%d", nonce, i)
+		s.scratch[i][len(s.scratch[i])-1] = fmt.Sprintf("reused-%d-%d-last", nonce, i)
 	}
 	s.cat = ion.NewCatalog(append([]ion.SharedSymbolTable{ion.NewSharedSymbolTable("t2", 1, []string{"x"})}, s.ssts...)...)
 	s.lst = ion.NewLocalSymbolTable(s.ssts, []string{"loc1", "loc2", "f", "g", "s"})
@@ -297,6 +313,9 @@ func c18Do(s *c18Shared, op C18Op) string {
 		if imps := s.lst.Imports(); len(imps) > 0 {
 			imps[len(imps)-1] = nil
 		}
+		s.scratchMu.Lock()
+		s.scratch[a%3][1+a%2] = "reused-again"
+		s.scratchMu.Unlock()
 		tx5, ok5 := s.ssts[a%3].FindByID(1)
 		tx6, ok6 := s.lst.FindByID(s.lst.MaxID())
 		return fmt.Sprintf("%d %v %s %v %d %v %d %v %v %v %s %v %s %v %d", id, ok, tx, ok2, id3, ok3, id4, ok4, tok.LocalSID, err, tx5, ok5, tx6, ok6, len(s.lst.Imports()))
